@@ -65,12 +65,18 @@ func gen(p *Prop, tier string, seed uint64, out string) {
 	distinct := map[string]bool{}
 	var samples []string
 	n, viol, corpusN := 0, 0, 0
+	shrunk := map[string]bool{}
 	run := func(line string) {
 		r := SafeExec(p, line)
 		fmt.Fprintln(wo, line)
 		fmt.Fprintln(wi, r.Impl)
 		if r.Oracle != "" {
-			fmt.Fprintf(wr, "%d\t%s\n", n, r.Oracle)
+			min := ""
+			if sig := sigOf(r.Oracle); p.Shrink != nil && !shrunk[sig] {
+				shrunk[sig] = true
+				min = shrink(p, line, sig)
+			}
+			fmt.Fprintf(wr, "%d\t%s\t%s\n", n, strings.ReplaceAll(r.Oracle, "\t", " "), min)
 			viol++
 		}
 		if r.Class == "" {
@@ -122,4 +128,35 @@ func gen(p *Prop, tier string, seed uint64, out string) {
 	}
 	b, _ := json.MarshalIndent(st, "", " ")
 	ioutil.WriteFile(filepath.Join(out, "stats.json"), b, 0o644)
+}
+
+func sigOf(oracle string) string {
+	if i := strings.Index(oracle, ":"); i >= 0 {
+		return strings.TrimSpace(oracle[:i])
+	}
+	return strings.TrimSpace(oracle)
+}
+
+// shrink: greedy descent over the plug-in's proposals, keeping the oracle sig.
+func shrink(p *Prop, line, sig string) string {
+	cur := line
+	for steps := 0; steps < 300; steps++ {
+		improved := false
+		for _, c := range p.Shrink(cur) {
+			if c == cur || len(c) > len(cur) {
+				continue
+			}
+			if r := SafeExec(p, c); r.Oracle != "" && sigOf(r.Oracle) == sig {
+				cur, improved = c, true
+				break
+			}
+		}
+		if !improved {
+			break
+		}
+	}
+	if cur == line {
+		return ""
+	}
+	return cur
 }
